@@ -139,7 +139,9 @@ def run_slice(args):
                     models = [None]
                 for m in models:
                     cls = spec.classify_failure(prop, name, pr, m)
-                    role = f'{prop}:{name}' + (f'/{cls}' if cls else '')
+                    # positional prefixes (m0: / fn1: / param2:) are not part of the role of a failing input
+                    rname = re.sub(r'(?:^|(?<=:))(?:m|fn|param)\d*:', '', name)
+                    role = f'{prop}:{rname}' + (f'/{cls}' if cls else '')
                     ent = res['failures'].setdefault(role, dict(prop=prop, name=name, count=0, detail=detail, case=None))
                     ent['count'] += 1
                     if ent['case'] is None:
